@@ -62,14 +62,25 @@ Print Assumptions C17_stop_releases_producers.
 Definition has3 (t : list (string * string * string)) (x : string * string * string) : bool :=
   existsb (fun y => match x, y with (a, b, c), (a', b', c') => (String.eqb a a' && String.eqb b b' && String.eqb c c')%bool end) t.
 
+Definition has2 (t : list (string * string)) (x : string * string) : bool :=
+  existsb (fun y => (String.eqb (fst x) (fst y) && String.eqb (snd x) (snd y))%bool) t.
+
+Definition ticker_posts_by_put : bool :=
+  (negb (has3 perio_chanops ("PERIOGroup.newTicker$1", "local.evtCh", "send")) && has2 perio_calls ("PERIOGroup.newTicker$1", "eventQueue.put")
+   && forallb (fun y => negb (String.eqb (fst y) "eventQueue.put") || existsb (String.eqb (snd y)) ["?.Lock"; "?.Unlock"; "?.Signal"; "append"]) perio_calls)%string.
+
 Definition shutdown_params : Shutdown.params :=
   Shutdown.mkP (has3 offloop_chanops ("PfcpServer.Stop", "PfcpServer.done", "recv")%string)
       (has3 perio_chanops ("PERIOGroup.stopTicker", "PERIOGroup.stopCh", "send")%string
        && has3 perio_chanops ("PERIOGroup.stopTicker", "PERIOGroup.stopCh", "close")%string
-       && has3 perio_chanops ("Server.Serve$1", "Server.evtCh", "close")%string)
-      (has3 perio_chanops ("PERIOGroup.newTicker$1", "local.evtCh", "send-select")%string
-       && negb (has3 perio_chanops ("PERIOGroup.newTicker$1", "local.evtCh", "send")%string)
-       && has3 perio_chanops ("PERIOGroup.newTicker$1", "PERIOGroup.stopCh", "recv")%string).
+       && (has3 perio_chanops ("Server.Serve$1", "Server.evtCh", "close") || has2 perio_calls ("Server.Serve$1", "eventQueue.close"))%string)
+      (((has3 perio_chanops ("PERIOGroup.newTicker$1", "local.evtCh", "send-select")%string
+         && negb (has3 perio_chanops ("PERIOGroup.newTicker$1", "local.evtCh", "send")%string)) || ticker_posts_by_put)
+       && has3 perio_chanops ("PERIOGroup.newTicker$1", "PERIOGroup.stopCh", "recv")%string)
+      (* posts after close are dropped: every poster goes through put, and put reads the queue's closed flag *)
+      (has2 perio_calls ("Server.AddPeriodReportTimer", "eventQueue.put") && has2 perio_calls ("Server.DelPeriodReportTimer", "eventQueue.put")
+       && has2 perio_calls ("Server.Close", "eventQueue.put") && ticker_posts_by_put
+       && existsb (fun y => String.eqb (fst y) "eventQueue.put" && existsb (String.eqb "eventQueue.closed") (snd y)) perio_access)%string.
 
 (* for the code as it is, with any number of tickers and under EVERY schedule of the loop, Stop, driver.Close, the
    periodic server and the tickers: nobody ever sends on the closed event channel (no panic at shutdown) *)
@@ -82,11 +93,18 @@ Theorem C17_shutdown_server_never_stuck : forall n l s, Shutdown.run shutdown_pa
 Proof. intros n l s. exact (ShutdownProofs.never_stuck_from_init shutdown_params n l s eq_refl eq_refl eq_refl). Qed.
 Print Assumptions C17_shutdown_server_never_stuck.
 
+(* since the event queue drops what is posted after it was closed, no schedule at all can fault - also those in which
+   Stop would not wait or a ticker would not be handed over *)
+Theorem C17_shutdown_queue_drops_after_close : Shutdown.drops shutdown_params = true /\
+  forall s a, Shutdown.step shutdown_params s a <> Shutdown.SendOnClosed.
+Proof. split; [reflexivity | intros s a; apply ShutdownProofs.drops_never_faults; reflexivity]. Qed.
+Print Assumptions C17_shutdown_queue_drops_after_close.
+
 (* each protocol element is necessary: the code before fixes 3f.. (Stop did not wait) / with stopTicker reduced to a
-   close / with a plain tick send has a failing schedule *)
+   close / with a plain tick send has a failing schedule - for an event CHANNEL (drops = false), which is what the code had *)
 Example C17_shutdown_elements_needed :
-  Shutdown.run (Shutdown.mkP false true true) (Shutdown.init 0) [Shutdown.StopReturn; Shutdown.DriverClose; Shutdown.ServeTakeClose; Shutdown.ServeFinish; Shutdown.LoopDriverCall] = Shutdown.SendOnClosed /\
-  Shutdown.run (Shutdown.mkP true false true) (Shutdown.init 1) [Shutdown.LoopExit; Shutdown.StopReturn; Shutdown.DriverClose; Shutdown.TickFire 0; Shutdown.ServeTakeClose; Shutdown.ServeStopTicker; Shutdown.ServeFinish; Shutdown.TickSent 0] = Shutdown.SendOnClosed.
+  Shutdown.run (Shutdown.mkP false true true false) (Shutdown.init 0) [Shutdown.StopReturn; Shutdown.DriverClose; Shutdown.ServeTakeClose; Shutdown.ServeFinish; Shutdown.LoopDriverCall] = Shutdown.SendOnClosed /\
+  Shutdown.run (Shutdown.mkP true false true false) (Shutdown.init 1) [Shutdown.LoopExit; Shutdown.StopReturn; Shutdown.DriverClose; Shutdown.TickFire 0; Shutdown.ServeTakeClose; Shutdown.ServeStopTicker; Shutdown.ServeFinish; Shutdown.TickSent 0] = Shutdown.SendOnClosed.
 Proof. split; reflexivity. Qed.
 
 (* the code before fix 4d35da3 closed srCh/trToCh in the clean-up: the table check rejects such a table *)
